@@ -63,3 +63,46 @@ impl FeeWrap {
         stellar_fee_abstraction::collect_fee(e, &token, fee, max, exp, &user, &recipient, if eager { FeeAbstractionApproval::Eager } else { FeeAbstractionApproval::Lazy })
     }
 }
+
+// ---------------- guard macros stacked on one entry point ----------------
+/// An owner guard and the pause guard on the same function, in both orders: each macro regenerates the
+/// function and must hand the attributes below it on to the next expansion.
+#[soroban_sdk::contract]
+pub struct StackedGuards;
+
+#[soroban_sdk::contractimpl]
+impl StackedGuards {
+    pub fn __constructor(e: &soroban_sdk::Env, owner: soroban_sdk::Address) {
+        stellar_access::ownable::set_owner(e, &owner);
+    }
+    pub fn pause(e: &soroban_sdk::Env) {
+        stellar_contract_utils::pausable::pause(e)
+    }
+    pub fn unpause(e: &soroban_sdk::Env) {
+        stellar_contract_utils::pausable::unpause(e)
+    }
+    #[stellar_macros::only_owner]
+    #[stellar_macros::when_not_paused]
+    pub fn owner_then_pause(e: &soroban_sdk::Env) -> u32 {
+        sg_bump(e)
+    }
+    #[stellar_macros::when_not_paused]
+    #[stellar_macros::only_owner]
+    pub fn pause_then_owner(e: &soroban_sdk::Env) -> u32 {
+        sg_bump(e)
+    }
+    #[stellar_macros::only_owner]
+    #[stellar_macros::when_paused]
+    pub fn owner_then_paused(e: &soroban_sdk::Env) -> u32 {
+        sg_bump(e)
+    }
+    pub fn count(e: &soroban_sdk::Env) -> u32 {
+        e.storage().instance().get(&soroban_sdk::symbol_short!("SGC")).unwrap_or(0)
+    }
+}
+
+fn sg_bump(e: &soroban_sdk::Env) -> u32 {
+    let c: u32 = e.storage().instance().get(&soroban_sdk::symbol_short!("SGC")).unwrap_or(0) + 1;
+    e.storage().instance().set(&soroban_sdk::symbol_short!("SGC"), &c);
+    c
+}
